@@ -17,7 +17,8 @@
 (* "SHAREDRENDER" the Renderer middleware re-binds ONE render object       *)
 (* instead of creating one per request; "SHAREDSRC" Recovery keeps the     *)
 (* source file it last read (for the stack listing) in the middleware      *)
-(* closure instead of in the call.                                         *)
+(* closure instead of in the call; "SHAREDPARAMS" the static shortcut hands *)
+(* every request of a static route ONE Params map built at registration.   *)
 (*   Rec      Recovery formats the panic of a "panic" route: stack frames  *)
 (*            with source lines from a per-call file cache, then answers   *)
 (***************************************************************************)
@@ -26,8 +27,9 @@ CONSTANTS NProc, Dev, EmitCases
 Procs == 1..NProc
 Vals == {"v1", "v2"}
 VARIABLES req, pc, params, hl, scope, out, arr, cache, seen, W, sched,
+          spar,     \* the scratch entry of the one Params map shared by the requests of the static route (deviation SHAREDPARAMS)
           rend      \* which request's writer the Render object seen by request p writes to (0 = the one shared cell)
-vars == <<req, pc, params, hl, scope, out, arr, cache, seen, W, sched, rend>>
+vars == <<req, pc, params, hl, scope, out, arr, cache, seen, W, sched, rend, spar>>
 
 ReqU == { [id |-> p, route |-> k, val |-> v] : p \in Procs, k \in {"static", "param", "render", "panic"}, v \in Vals }
 Init == /\ req \in { f \in [Procs -> ReqU] : \A p \in Procs : f[p].id = p }
@@ -35,41 +37,43 @@ Init == /\ req \in { f \in [Procs -> ReqU] : \A p \in Procs : f[p].id = p }
         /\ hl = [p \in Procs |-> <<>>] /\ scope = [p \in Procs |-> {}] /\ out = [p \in Procs |-> <<>>]
         /\ arr = <<"mw1", "free">>                  \* f.handlers with one spare slot
         /\ cache = [k \in RouteKinds |-> "unset"] /\ seen = [p \in Procs |-> FALSE]
-        /\ W = {} /\ sched = <<>> /\ rend = [p \in 0..NProc |-> p]
+        /\ W = {} /\ sched = <<>> /\ rend = [p \in 0..NProc |-> p] /\ spar = 0
 
 Lookup(p) == /\ pc[p] = "lookup"
              /\ params' = [params EXCEPT ![p] = [route |-> req[p].route, val |-> req[p].val]]
              /\ pc' = [pc EXCEPT ![p] = "render"]
              /\ sched' = Append(sched, p)
-             /\ UNCHANGED <<req, hl, scope, out, arr, cache, seen, W, rend>>
+             /\ UNCHANGED <<req, hl, scope, out, arr, cache, seen, W, rend, spar>>
 \* sync.Once: test and set in one atomic step; only the winner writes
 RenderOnce(p) == /\ pc[p] = "render" /\ "NOONCE" \notin Dev
                  /\ cache' = [cache EXCEPT ![req[p].route] = "set"]
                  /\ pc' = [pc EXCEPT ![p] = "ctx"]
-                 /\ UNCHANGED <<req, params, hl, scope, out, arr, seen, W, sched, rend>>
+                 /\ UNCHANGED <<req, params, hl, scope, out, arr, seen, W, sched, rend, spar>>
 \* negative control: `if s.str == "" { s.str = render() }`
 RenderCheck(p) == /\ pc[p] = "render" /\ "NOONCE" \in Dev
                   /\ seen' = [seen EXCEPT ![p] = cache[req[p].route] = "set"]
                   /\ pc' = [pc EXCEPT ![p] = "renderset"]
-                  /\ UNCHANGED <<req, params, hl, scope, out, arr, cache, W, sched, rend>>
+                  /\ UNCHANGED <<req, params, hl, scope, out, arr, cache, W, sched, rend, spar>>
 RenderSet(p) == /\ pc[p] = "renderset"
                 /\ IF seen[p] THEN UNCHANGED <<cache, W>>
                    ELSE cache' = [cache EXCEPT ![req[p].route] = "set"] /\ W' = W \cup {<<req[p].route, p>>}
                 /\ pc' = [pc EXCEPT ![p] = "ctx"]
-                /\ UNCHANGED <<req, params, hl, scope, out, arr, seen, sched, rend>>
+                /\ UNCHANGED <<req, params, hl, scope, out, arr, seen, sched, rend, spar>>
 Ctx(p) == /\ pc[p] = "ctx"
           /\ IF "SHAREDSLICE" \in Dev
              THEN /\ arr' = [arr EXCEPT ![2] = req[p].route]         \* append(f.handlers, ...) reuses the spare slot
                   /\ hl' = [hl EXCEPT ![p] = <<"alias">>] /\ W' = W \cup {<<"arr", p>>}
              ELSE /\ hl' = [hl EXCEPT ![p] = <<"mw1", req[p].route>>] /\ UNCHANGED <<arr, W>>
           /\ pc' = [pc EXCEPT ![p] = "h1"]
-          /\ UNCHANGED <<req, params, scope, out, cache, seen, sched, rend>>
+          /\ UNCHANGED <<req, params, scope, out, cache, seen, sched, rend, spar>>
 \* middleware: c.Map(tag), then Renderer: a FRESH render object bound to this request's writer
 H1(p) == /\ pc[p] = "h1"
          /\ scope' = [scope EXCEPT ![p] = @ \cup {p}]
-         /\ IF "SHAREDRENDER" \in Dev
-            THEN rend' = [rend EXCEPT ![0] = p] /\ W' = W \cup {<<"rend", p>>}     \* r.responseWriter = c.ResponseWriter() on the one object
-            ELSE UNCHANGED <<rend, W>>
+         /\ LET sp == "SHAREDPARAMS" \in Dev /\ req[p].route = "static"      \* c.Params()["_scratch"] = id lands in the one shared map
+                sr == "SHAREDRENDER" \in Dev                               \* r.responseWriter = c.ResponseWriter() on the one object
+            IN /\ rend' = IF sr THEN [rend EXCEPT ![0] = p] ELSE rend
+               /\ spar' = IF sp THEN p ELSE spar
+               /\ W' = W \cup (IF sr THEN {<<"rend", p>>} ELSE {}) \cup (IF sp THEN {<<"params", p>>} ELSE {})
          /\ pc' = [pc EXCEPT ![p] = "h2"] /\ sched' = Append(sched, p)
          /\ UNCHANGED <<req, params, hl, out, arr, cache, seen>>
 H2(p) == /\ pc[p] = "h2" /\ req[p].route # "panic"
@@ -78,20 +82,22 @@ H2(p) == /\ pc[p] = "h2" /\ req[p].route # "panic"
             IN out' = [out EXCEPT ![p] = [h |-> h, val |-> IF HasVal(params[p].route) THEN params[p].val ELSE "",
                                           tag |-> tg, url |-> "/p/" \o params[p].val,
                                           \* a "render" route writes through the Render object it was given
-                                          wid |-> IF req[p].route = "render" /\ "SHAREDRENDER" \in Dev THEN rend[0] ELSE p]]
+                                          wid |-> IF req[p].route = "render" /\ "SHAREDRENDER" \in Dev THEN rend[0] ELSE p,
+                                          \* the scratch entry the middleware of THIS request left in its Params map
+                                          scr |-> IF "SHAREDPARAMS" \in Dev /\ req[p].route = "static" THEN spar ELSE p]]
          /\ pc' = [pc EXCEPT ![p] = "done"] /\ sched' = Append(sched, p)
-         /\ UNCHANGED <<req, params, hl, scope, arr, cache, seen, W, rend>>
+         /\ UNCHANGED <<req, params, hl, scope, arr, cache, seen, W, rend, spar>>
 \* the route handler panics; the deferred function of Recovery (an earlier middleware of the same request) formats the
 \* stack - reading source files through a cache of the last file - and answers on this request's writer
 H2Panic(p) == /\ pc[p] = "h2" /\ req[p].route = "panic"
               /\ pc' = [pc EXCEPT ![p] = "rec"] /\ sched' = Append(sched, p)
-              /\ UNCHANGED <<req, params, hl, scope, out, arr, cache, seen, W, rend>>
+              /\ UNCHANGED <<req, params, hl, scope, out, arr, cache, seen, W, rend, spar>>
 Rec(p) == /\ pc[p] = "rec"
           /\ W' = IF "SHAREDSRC" \in Dev THEN W \cup {<<"src", p>>} ELSE W
           /\ LET tg == CHOOSE t \in scope[p] : TRUE
-             IN out' = [out EXCEPT ![p] = [h |-> "panic", val |-> params[p].val, tag |-> tg, url |-> "/p/" \o params[p].val, wid |-> p]]
+             IN out' = [out EXCEPT ![p] = [h |-> "panic", val |-> params[p].val, tag |-> tg, url |-> "/p/" \o params[p].val, wid |-> p, scr |-> p]]
           /\ pc' = [pc EXCEPT ![p] = "done"]
-          /\ UNCHANGED <<req, params, hl, scope, arr, cache, seen, sched, rend>>
+          /\ UNCHANGED <<req, params, hl, scope, arr, cache, seen, sched, rend, spar>>
 Next == \E p \in Procs : H2Panic(p) \/ Rec(p) \/ Lookup(p) \/ RenderOnce(p) \/ RenderCheck(p) \/ RenderSet(p) \/ Ctx(p) \/ H1(p) \/ H2(p)
 Spec == Init /\ [][Next]_vars
 
@@ -103,5 +109,5 @@ NoRace == \A a, b \in W : a[1] = b[1] => a[2] = b[2]
 ReadOnlyAfterSetup == W = {} /\ arr = <<"mw1", "free">>
 AllDone == \A p \in Procs : pc[p] = "done"
 EmitCase == (EmitCases /\ AllDone) => PrintT("CASE " \o ToJson([reqs |-> [p \in Procs |-> req[p]], sched |-> sched]))
-View == <<req, pc, params, hl, scope, out, arr, cache, seen, W, rend>>
+View == <<req, pc, params, hl, scope, out, arr, cache, seen, W, rend, spar>>
 ====
